@@ -73,7 +73,10 @@ impl Geo {
             }
             _ => {
                 let c = if tail { unit(rng, dim, 0, 32) } else { vec![0.0; dim] };
-                Geo { metric, dim, a, b, c, w: if tail { 0.8 } else { 0.0 }, step: 0.15 }
+                // every third variant spreads the positions over an arc of up to ~150 degrees: pairs at an obtuse angle have
+                // a negative dot product, i.e. a cosine / inner-product distance between 1 and 2
+                let wide = variant % 3 == 2;
+                Geo { metric, dim, a, b, c, w: if tail && !wide { 0.8 } else { 0.0 }, step: if wide { 0.45 } else { 0.15 } }
             }
         }
     }
